@@ -10,6 +10,9 @@ func (c *Conversation) generateNewDHKeyPair() error {
 }
 
 func (c *Conversation) akeHasFinished() error {
+	c.ssid = c.ake.ssid
+	c.sentRevealSig = c.ake.sentRevealSig
+
 	c.keys.wipe()
 	c.keys = c.ake.keys
 	c.ake.wipe(false)
@@ -180,7 +183,7 @@ func (s authStateAwaitingDHKey) receiveDHKeyMessage(c *Conversation, msg []byte)
 	c.ake.keys.setTheirCurrentDHPubKey(c.ake.theirPublicValue)
 	c.ake.keys.setOurCurrentDHKeys(c.ake.secretExponent, c.ake.ourPublicValue)
 
-	c.sentRevealSig = true
+	c.setSentRevealSig(true)
 
 	return authStateAwaitingSig{revealSigMsg: revealSigMsg}, revealSigMsg, nil
 }
@@ -223,7 +226,7 @@ func (s authStateAwaitingRevealSig) receiveRevealSigMessage(c *Conversation, msg
 	c.ake.keys.setTheirCurrentDHPubKey(c.ake.theirPublicValue)
 	c.ake.keys.setOurCurrentDHKeys(c.ake.secretExponent, c.ake.ourPublicValue)
 
-	c.sentRevealSig = false
+	c.setSentRevealSig(false)
 
 	return authStateNone{}, sigMsg, c.akeHasFinished()
 }
